@@ -561,6 +561,22 @@ impl HttpContext {
         // so the postcondition can pin "blocks only grow" for the whole edit.
         let blocks_at_entry = request.blocks.len();
 
+        // RFC 9112 §6.3 (7): a request that carries neither Content-Length nor
+        // Transfer-Encoding has no body. kawa's HTTP/1 parser leaves such a
+        // message in `ParsingPhase::Body` with `BodySize::Empty`, i.e. "read
+        // until the peer closes" - a framing that only exists for responses.
+        // Every byte the client sent after the head (the next pipelined
+        // request) would then be relayed verbatim to the backend as "body":
+        // a request Sōzu never parsed, routed or edited (CWE-444). The H2 path
+        // (pkawa) resolves its framing after this callback and is still in
+        // its initial phase here, so only HTTP/1 requests match.
+        if request.body_size == kawa::BodySize::Empty
+            && request.parsing_phase == kawa::ParsingPhase::Body
+        {
+            request.expects = 0;
+            request.parsing_phase = kawa::ParsingPhase::Terminated;
+        }
+
         let buf = request.storage.mut_buffer();
 
         // Captures the request line
